@@ -87,11 +87,13 @@ ARITY_H = H('arity', 'oracle_arity', 8000, 400000, spec_level=True, nontrivial=l
 
 CHECKS = {
     'C01': dict(
-        spec=['FpVerif.Spec.C01', 'FpVerif.Spec.C01Inst', 'FpVerif.Spec.C01T', 'FpVerif.Spec.C16', 'FpVerif.Spec.C01Fn'],
+        spec=['FpVerif.Spec.C01', 'FpVerif.Spec.C01Inst', 'FpVerif.Spec.C01T', 'FpVerif.Spec.C16', 'FpVerif.Spec.C01Fn', 'FpVerif.Spec.C17'],
         harnesses=MONAD_H + [TRYOPT_H, ARITY_H, H('iter', 'oracle_iter', 4000, 400000, spec_level=True, project=project_iter, extra=dict(quick=['-prop', 'C12'], thorough=['-prop', 'C12'])),
                              H('eval', 'oracle_eval', 2000, 100000, spec_level=True, extra=dict(quick=['-deep', '20000'], thorough=['-deep', '200000'])),
                              # the function monads fn0 / fn1 (reader monad over the effect monad)
-                             H('fn', 'oracle_fn', 3000, 150000, spec_level=True)],
+                             H('fn', 'oracle_fn', 3000, 150000, spec_level=True),
+                             # hand-written StateT core incl. FoldM / Concat; every fourth program is run TWICE (a StateT is a value)
+                             H('statet', 'oracle_statet', 3000, 100000, spec_level=True)],
         level='proof',
         modelled='X_monad.go + X_traverse.go of option/try/either/statet (one generic model of the generator template, '
                  'instantiated four times; every arity through operand lists); FlatMap/Pure/FoldM and the hand-written cores of '
@@ -277,10 +279,12 @@ CHECKS = {
                      'most one element (single use / pull order of iterators: C12, C20)'],
     ),
     'C16': dict(
-        spec=['FpVerif.Spec.C16', 'FpVerif.Spec.C16Facts', 'FpVerif.Spec.C01Fn'],
+        spec=['FpVerif.Spec.C16', 'FpVerif.Spec.C16Stack', 'FpVerif.Spec.C16Facts', 'FpVerif.Spec.C01Fn'],
         facts=facts_factx,
         harnesses=[H('eval', 'oracle_eval', 4000, 200000, spec_level=True,
                      extra=dict(quick=['-deep', '2000000'], thorough=['-deep', '20000000'])),
+                   # call depth of every logging user frame (runtime.Callers, relative to the frame calling Run/Get) vs the frame-instrumented model
+                   H('evalstack', 'oracle_evalstack', 3000, 150000),  # exact frame counts are implementation-level: a difference is a correspondence break; the direct checks (depth at n=30 == depth at n=3000, every arity) give the concrete input
                    # fn1.Memoize is a sync.Once cell like fp.Memoize / lazy.Memoize
                    H('fn', 'oracle_fn', 2000, 100000, spec_level=True, extra=dict(quick=['-focus', 'memo'], thorough=['-focus', 'memo'])),
                    # the deferred REST handed to FoldRight's step function (iterator/seq/list) is a memoised TailCall: forced twice, evaluated once;
@@ -288,12 +292,18 @@ CHECKS = {
                    H('iter', 'oracle_iter', 2000, 200000, spec_level=True, project=project_iter, extra=dict(quick=['-prop', 'C12'], thorough=['-prop', 'C12']))],
         level='proof',
         level_note='trusted: Lean kernel (propext/Classical.choice/Quot.sound only); model fidelity checked by correspondence; '
-                   'sync.Once trusted to give the blocking exactly-once semantics modelled in Model/Memo.lean; PARTIAL: constant machine-stack '
-                   'use per loop iteration is measured by the harness (call depth probes, 2e6 / 2e7 deep tail recursion under a 32 MB stack cap), '
-                   'the Lean theorems give the structural part (no pending continuation accumulates; n tail calls = n loop iterations).',
+                   'sync.Once trusted to give the blocking exactly-once semantics modelled in Model/Memo.lean. Call DEPTH (number of logical frames) of '
+                   'tail-recursive programs is a theorem (Spec/C16Stack: tailLoop_depth_bounded, tailProg_depth_bounded: <= 8 + K frames above Run for every n; '
+                   'callLoop_depth_ge / nestLoop_depth_ge: the non-tail formulations need 8 frames per level; lchain_depth_ge: left-nested FlatMap/Map chains cost one '
+                   'frame per pending continuation) about a frame-instrumented model (Model/EvalStack.lean) that erases to Model/Eval.lean (run_erase, faithful_stack); '
+                   'the per-callback depths of that model are compared EXACTLY with runtime.Callers on the real code (evalstack harness). Trusted: frame SIZES in bytes and '
+                   'the Go runtime stack growth (still exercised end to end by the 2e6 / 2e7 deep runs under a 32 MB stack cap), that runtime.Callers reports one entry per '
+                   'logical call, the two frames of sync.Once.Do (Do -> doSlow, Go 1.23).',
         modelled='lazy/lazy.go (Eval, Resume, Run loop with fuel, FlatMap, Map, Map2, Done, Call, TailCall, TailCallN as TailCall) with '
                  'logging thunks; Memoize as a Once-guarded cell under arbitrary interleavings; facts: Call/TailCall/MakeList route through '
-                 'Memoize, every Memoize uses sync.Once. Panicking thunks are not modelled.',
+                 'Memoize, every Memoize uses sync.Once. Panicking thunks are not modelled. Model/EvalStack.lean: the same code with one frame per Go call '
+                 '(Run, Resume, the closure Resume returns, firstFunc/getNextFunc, Memoize closure -> Once.Do -> doSlow -> closure -> f, FlatMap wrapper closure, Map/Map2 closures, '
+                 'TailCallN closure, Get -> Run).',
         assumptions=['thunks may log but do not panic', 'sync.Once semantics as in Model/Memo.lean'],
     ),
     'C17': dict(
